@@ -143,6 +143,15 @@ def _local_values(fn, name: str) -> list[ast.expr]:
             for tg in (a.targets if isinstance(a, ast.Assign) else [a.target]):
                 if isinstance(tg, ast.Name) and tg.id == name:
                     out.append(a.value)
+                # `*head, last = xs` / `first, *rest = xs`: the starred name is a slice of xs, a plain one an element of it
+                elif isinstance(tg, (ast.Tuple, ast.List)) and any(isinstance(t, ast.Starred) for t in tg.elts):
+                    for i, t in enumerate(tg.elts):
+                        if isinstance(t, ast.Starred) and isinstance(t.value, ast.Name) and t.value.id == name:
+                            out.append(ast.Subscript(value=a.value, slice=ast.Slice(lower=None, upper=None, step=None), ctx=ast.Load()))
+                        elif isinstance(t, ast.Name) and t.id == name:
+                            star_at = next(j for j, u in enumerate(tg.elts) if isinstance(u, ast.Starred))
+                            idx = i if i < star_at else i - len(tg.elts)
+                            out.append(ast.Subscript(value=a.value, slice=ast.Constant(value=idx), ctx=ast.Load()))
     return out
 
 
